@@ -18,7 +18,7 @@ import (
 )
 
 // MaxTasks bounds caller tasks plus goroutines spawned by the library during a run.
-const MaxTasks = 1024
+const MaxTasks = 4096
 
 // MaxCallers is the largest number of caller tasks a run may start with.
 const MaxCallers = 64
@@ -1084,8 +1084,21 @@ var SwitchHook func(task int)
 // Fault reports a condition the simulator cannot handle (the run must be discarded and
 // the check must end as a machinery problem, never as a verdict).
 //
+// YV is a yield point inside an expression: the value is computed, then the task may be
+// preempted, then the value is used.
+//
 //go:norace
+func YV[T any](id uint32, v T) T {
+	YS(id)
+	return v
+}
+
 func Fault() string { return simFault }
+
+// ClearFault forgets a table overflow (the harness has dealt with it).
+//
+//go:norace
+func ClearFault() { simFault = "" }
 
 var simFault string
 
